@@ -91,6 +91,8 @@ CALL_SHAPES = [
     ((1,), {'q': 7}),
 ]
 
+LEAK_VIA_CACHE = 'instance kept alive only by bound-wrapper cache entries (WeakKeyDictionary insts of a translator)'
+
 HOWS = ['sigtools.signature', 'inspect.signature', 'sigtools.signature(auto=False)']
 
 
@@ -276,7 +278,7 @@ def retention_path(wr, ignore_ids):
     ignore = set(ignore_ids)
     best = None
     culprit = None
-    for depth in range(9):
+    for depth in range(40):
         nxt = []
         for o, path in frontier:
             refs = gc.get_referrers(o)
@@ -308,13 +310,13 @@ def retention_path(wr, ignore_ids):
             break
         ignore.add(id(nxt))
         frontier = nxt
-        if len(frontier) > 3000:
+        if len(frontier) > 20000:
             break
     del frontier, nxt
     if culprit is not None and best is None:
         raise HarnessError('a harness frame ({0}) still refers to the dropped instance'.format(culprit))
     if best is None:
-        return 'no path to a class or module found within 9 hops'
+        return 'no path to a class or module found within 40 hops'
     return ' <- '.join(best)
 
 
@@ -551,20 +553,21 @@ class C18Hist(object):
                         res.counters['probe:reclaimed_only_by_cyclic_gc'] += 1
                     res.key('drop', INST_CLASSES[i], tuple(sorted(touched[i])), nontrivial=bool(touched[i]))
                     return False
-                # H4 violation: find out why
-                path = retention_path(wr, [id(slots), id(env.insts), id(touched)])
-                symptom = 'instance kept alive via ' + path
+                # H4 violation: find out why.  First behaviourally: does emptying the translators'
+                # bound-wrapper caches free it?  (that is the recorded finding D10)  Only if not,
+                # classify by the retention path.
                 res.counters['instances_not_reclaimed'] += 1
-                # if this is the recorded cache leak, remove that edge and look for another
-                if 'WeakKeyDictionary' in path or 'KeyedRef' in path:
-                    n = _clear_insts_caches(env)
-                    gc.collect()
-                    if wr() is not None and n:
-                        path2 = retention_path(wr, [id(slots), id(env.insts), id(touched)])
-                        viol('H4', 'instance kept alive (bound-wrapper cache cleared) via ' + path2,
-                             'instance {0} touched={1}'.format(i, sorted(touched[i])))
-                viol('H4', symptom, 'instance {0} ({1}) touched={2} survives drop + gc.collect()'.format(
-                    i, INST_CLASSES[i], sorted(touched[i])))
+                n = _clear_insts_caches(env)
+                gc.collect()
+                if wr() is None and n:
+                    viol('H4', LEAK_VIA_CACHE, 'instance {0} ({1}) touched={2} survives drop + gc.collect(); '
+                         'reclaimed once {3} cached bound wrapper(s) were removed'.format(
+                             i, INST_CLASSES[i], sorted(touched[i]), n))
+                else:
+                    path = retention_path(wr, [id(slots), id(env.insts), id(touched)])
+                    viol('H4', 'instance kept alive via ' + path,
+                         'instance {0} ({1}) touched={2} survives drop + gc.collect() (bound-wrapper caches '
+                         'emptied: {3} entries)'.format(i, INST_CLASSES[i], sorted(touched[i]), n))
                 # the history goes on: a leak does not invalidate later comparisons
 
             return False
